@@ -92,9 +92,10 @@ CHECKS = {
  'C14': ('Theorems C14.* over the PatternWaiter model (expect_async + protocol callbacks over the same Expecter functions, transport pause/resume/close explicit): '
          'async_call_eq_sync_call / async_final_eq_sync_final (same events => same outcome, state, unread events), paused_when_idle, closed_only_by_eof, '
          'done_window_data_conserved, mixed_history_eq_sync and mixed_history_conserves (any interleaving of blocking and awaited calls = the all-blocking history; C01 holds for it), '
-         'mixed_history_paused, async_timeout_bound; witnesses timeout_zero_diverges and eof_after_done_wipes_pending for the two known findings. Tie: the real asyncio path '
+         'mixed_history_paused, async_timeout_bound, abandoned_history_conserves / abandoned_call_consumes_nothing / idle_output_kept_for_next_call (awaited calls the caller gives up leave the '
+         'transport reading: what arrives with nobody waiting is appended, never searched, never lost); witnesses timeout_zero_diverges and eof_after_done_wipes_pending for the two known findings. Tie: the real asyncio path '
          '(SelectorEventLoop + unix read-pipe transport + wait_for) on pipes and ptys under a virtual-time selector, compared call by call (index/exception, before, after, match, '
-         'buffer, duration) with an all-blocking twin fed the same arrival schedule; recorded loop events replayed through the Lean model of mixed histories.',
+         'buffer, duration, logfile_read) with an all-blocking twin fed the same arrival schedule; recorded loop events - including abandoned calls and idle deliveries - replayed through the Lean model.',
          'Partial: awaited calls with timeout=0 and an EOF delivered while no call is outstanding are known findings (excluded from the parity theorem by construction of the model: '
          'acall0 / doneEofPre are separate definitions). Parity is judged up to and including the first EOF.', '4/C14'),
  'C16': ('Theorems C16.* over the run_command model (REPLWrapper.run_command / repl_run_command_async over the Expecter model, the REPL as an event stream): '
